@@ -1,8 +1,89 @@
-/- Driver ops for C15 (none yet). -/
+/- Driver ops for C15: categorical fast path / dense path kernel matrices and block-restricted AGOP on `Float`. -/
 import Xrfmv.Drv.Common
+import Xrfmv.Model.Categorical
+
+open Lean Xrfmv.Drv
 
 namespace Xrfmv.Drv.C15
+open Xrfmv.Categorical
 
-def ops : List (String × Handler) := []
+def rowFn (r : Array Float) : Nat → Float := fun i => r.getD i 0.0
+def matFn (m : Array (Array Float)) : Nat → Nat → Float := fun i j => (m.getD i #[]).getD j 0.0
+
+/-- Layout of a `d`-column input; what indexing with these tensors would reject is rejected. -/
+def getLayout (j : Json) (d : Nat) : Except String Layout := do
+  let num ← j.getObjValAs? (List Nat) "num"
+  let groups ← j.getObjValAs? (List (List Nat)) "groups"
+  let lay : Layout := { num := num, groups := groups }
+  if lay.cover.any (fun i => i ≥ d) then throw "bad-op: column index out of range"
+  pure lay
+
+def getKind (j : Json) : Except String Kind := do
+  match ← j.getObjValAs? String "kernel" with
+  | "l2" => pure .l2
+  | "product" => pure .product
+  | "lpq" => pure .lpq
+  | s => throw s!"bad-op: kernel {s} has no categorical path"
+
+def getTransform (j : Json) (d : Nat) : Except String (Transform Float) := do
+  match ← j.getObjValAs? String "transform" with
+  | "none" => pure .none
+  | "diag" =>
+    let v ← getFs j "mat"
+    if v.size ≠ d then throw "bad-op: diagonal transform of wrong length"
+    pure (.diag (rowFn v))
+  | "full" =>
+    let m ← getFss j "mat"
+    if m.size ≠ d || m.any (fun r => r.size ≠ d) then throw "bad-op: transform matrix is not d x d"
+    pure (.full (matFn m))
+  | s => throw s!"bad-op: transform {s}"
+
+def getRows (j : Json) (k : String) (d : Nat) : Except String (List (Nat → Float)) := do
+  let rows ← getFss j k
+  if rows.any (fun r => r.size ≠ d) then throw s!"bad-op: a row of {k} does not have d columns"
+  pure (rows.toList.map rowFn)
+
+/-- (a) fast-path and dense kernel matrices for a layout, kernel kind, exponents, bandwidth, transform, rows. -/
+def opKernel : Handler := fun j => do
+  let d ← j.getObjValAs? Nat "d"
+  let lay ← getLayout j d
+  let kind ← getKind j
+  let p ← getF j "p"
+  let q ← getF j "q"
+  let L ← getF j "L"
+  if !(L > 0) then throw "bad-op: bandwidth must be positive"
+  if !(q > 0) then throw "bad-op: exponent must be positive"
+  if kind == .lpq && !(0 < p && p ≤ 2 && q ≤ p) then throw "bad-op: need 0 < q <= p <= 2"
+  if lay.num.isEmpty && lay.groups.isEmpty then throw "bad-op: no numerical or categorical features"
+  let T ← getTransform j d
+  let xs ← getRows j "x" d
+  let zs ← getRows j "z" d
+  let fast := fastMatrix kind p q L lay T xs zs
+  let dense := denseMatrix kind p q L d T xs zs
+  let cats := lay.groups.map fun g => xs.map fun x => argmax (restrict x g) g.length
+  pure <| Json.mkObj [("fast", fssJson (fast.map List.toArray).toArray),
+    ("dense", fssJson (dense.map List.toArray).toArray), ("xcat", toJson cats)]
+
+def tabulate (d : Nat) (A : Nat → Nat → Float) : Array (Array Float) :=
+  (Array.range d).map fun i => (Array.range d).map fun j => A i j
+
+/-- (b) block mask of a `d × d` matrix. -/
+def opMask : Handler := fun j => do
+  let d ← j.getObjValAs? Nat "d"
+  let lay ← getLayout j d
+  let m ← getFss j "A"
+  if m.size ≠ d || m.any (fun r => r.size ≠ d) then throw "bad-op: matrix is not d x d"
+  pure <| Json.mkObj [("masked", fssJson (tabulate d (blockMask lay (matFn m))))]
+
+/-- (c) categorical AGOP (zeros + one assignment per block) and dense AGOP of a gradient matrix. -/
+def opAgop : Handler := fun j => do
+  let d ← j.getObjValAs? Nat "d"
+  let lay ← getLayout j d
+  let G ← getFss j "G"
+  if G.any (fun r => r.size ≠ d) then throw "bad-op: a gradient row does not have d columns"
+  pure <| Json.mkObj [("cat", fssJson (tabulate d (agopCat G.size (matFn G) lay))),
+    ("dense", fssJson (tabulate d (gram G.size (matFn G))))]
+
+def ops : List (String × Handler) := [("kernel", opKernel), ("mask", opMask), ("agop", opAgop)]
 
 end Xrfmv.Drv.C15
